@@ -196,6 +196,157 @@ def gil_facts(root):
     }
 
 
+
+# ---------------------------------------------------------------- behavioural probing
+# Private constants can be renamed, merged or computed differently by a harmless rewrite.  The tables the model needs are
+# therefore read off the BEHAVIOUR of the public API (URL, URL.build, yarl.cache_info) over a universe of candidate values;
+# a module-level constant with the historical name is used only as a cross-check when it still exists.
+
+SCHEME_RE = re.compile(r"^[a-z][a-z0-9+.\-]*\Z")
+
+
+def scheme_universe(mods):
+    """every short string that occurs in a collection-valued global of the given modules, plus urllib's lists"""
+    import urllib.parse as up
+    uni = {""} | set(up.uses_relative) | set(up.uses_netloc) | {"http", "https", "ws", "wss", "ftp", "file", "mailto", "x", "git+ssh", "svn", "data", "urn"}
+    for m in mods:
+        for name, val in vars(m).items():
+            if isinstance(val, (set, frozenset, list, tuple, dict)):
+                for x in (val.keys() if isinstance(val, dict) else val):
+                    if isinstance(x, str) and len(x) <= 16 and (x == "" or SCHEME_RE.match(x)):
+                        uni.add(x)
+    return sorted(uni)
+
+
+def probe_tables(URL, uni):
+    res = {}
+    # default ports: URL('<s>://h/').port
+    dp = {}
+    for sc in uni:
+        if not sc:
+            continue
+        try:
+            p_ = URL(sc + "://h/").port
+        except Exception:
+            continue
+        if p_ is not None:
+            dp[sc] = p_
+    res["default_ports"] = dp
+    # schemes that require a host: an empty host is rejected
+    req = []
+    for sc in uni:
+        if not sc:
+            continue
+        try:
+            URL(sc + "://:81/p")
+        except ValueError:
+            try:
+                URL(sc + "://h:81/p")
+                req.append(sc)
+            except Exception:
+                pass
+        except Exception:
+            pass
+    res["requires_host"] = sorted(req)
+    # uses_relative: join resolves a relative reference against the base
+    rel = []
+    for sc in uni:
+        try:
+            base = URL((sc + ":" if sc else "") + "//h/a/b", encoded=True)
+            j = base.join(URL("c", encoded=True))
+            if j.raw_path == "/a/c":
+                rel.append(sc)
+        except Exception:
+            pass
+    res["uses_relative"] = sorted(rel)
+    # uses_authority: an absent authority is written as '//' for these schemes
+    au = []
+    for sc in uni:
+        try:
+            if str(URL((sc + ":" if sc else "") + "/p", encoded=True)) == (sc + ":" if sc else "") + "///p" or (not sc and str(URL("/p", encoded=True)) == "/p" and False):
+                au.append(sc)
+        except Exception:
+            pass
+    res["uses_authority_nonempty"] = sorted(au)
+    # characters stripped at the start / removed anywhere by the splitter
+    strip, remove = [], []
+    for c in range(0x80):
+        ch = chr(c)
+        try:
+            if URL(ch + "x:y", encoded=True).scheme == "x" and ch not in "x":
+                strip.append(ch)
+        except Exception:
+            pass
+        try:
+            if URL("x" + ch + "y:z", encoded=True).scheme == "xy" and ch not in "xy":
+                remove.append(ch)
+        except Exception:
+            pass
+    res["strip"] = "".join(strip)
+    res["remove"] = "".join(remove)
+    # reg-name characters accepted by the validating host encoder (build(host=…))
+    ok = []
+    for c in range(128):
+        ch = chr(c)
+        if ch == "%":
+            continue
+        try:
+            URL.build(scheme="x", host="a" + ch + "b")
+            if not (ch.isdigit() or ch == ":"):
+                ok.append(ch)
+            else:
+                ok.append(ch)
+        except ValueError:
+            pass
+        except Exception:
+            pass
+    res["regname"] = "".join(ch for ch in ok if ch not in "ABCDEFGHIJKLMNOPQRSTUVWXYZ")
+
+    def host_ok(h):
+        try:
+            URL.build(scheme="x", host=h)
+            return True
+        except ValueError:
+            return False
+    res["pct_lower_hex_only"] = bool(host_ok("a%0ab") and not host_ok("a%0Gb") and not host_ok("a%ab" if False else "a%a") and not host_ok("a%"))
+    return res
+
+
+def probe_human_unsafe(URL):
+    """which printable ASCII characters human_repr() escapes in each component ('%' is always escaped)"""
+    out = {}
+    for comp in ("user", "password", "path", "k", "v", "fragment"):
+        uns = []
+        for cp in range(0x21, 0x7F):
+            c = chr(cp)
+            if c == "%":
+                continue
+            t = "a" + c + "b"
+            kw = dict(scheme="http", host="example.com", path="/p")
+            if comp == "user":
+                kw["user"] = t
+            elif comp == "password":
+                kw["user"], kw["password"] = "u", t
+            elif comp == "path":
+                if c == "/":
+                    continue
+                kw["path"] = "/" + t
+            elif comp == "k":
+                kw["query"] = [(t, "v")]
+            elif comp == "v":
+                kw["query"] = [("k", t)]
+            else:
+                kw["fragment"] = t
+            try:
+                hr = URL.build(**kw).human_repr()
+            except Exception:
+                continue
+            if ("a%%%02Xb" % cp) in hr:
+                uns.append(c)
+        out[comp] = "".join(uns)
+    return out
+
+
 def main():
     root = sys.argv[1]
     sys.path.insert(0, root)
@@ -240,12 +391,45 @@ def main():
     w("import YarlModel.Config")
     w("namespace Yarl.Gen")
     w("")
-    w(f"def allowedPy : Str := {lean_str(qp.ALLOWED)}")
-    w(f"def unreservedPy : Str := {lean_str(qp.UNRESERVED)}")
-    w(f"def subDelimsWithoutQsPy : Str := {lean_str(qp.SUB_DELIMS_WITHOUT_QS)}")
-    w(f"def allowedC : Str := {lean_str(pyx['ALLOWED'])}")
-    w(f"def qsC : Str := {lean_str(pyx['QS'])}")
-    w(f"def bufSize : Nat := {int(pyx['BUF_SIZE'])}")
+    # character-class constants of the two quoters: by their historical names when present, otherwise read off the behaviour of
+    # the quoter classes (a character is "allowed" when a non-requoting qs-quoter with no safe/protected set leaves it alone)
+    ascii_all = [chr(i) for i in range(128)]
+
+    def probe_allowed(Q):
+        q1 = Q(qs=True, requote=False)
+        return "".join(c for c in ascii_all if c not in " %" and q1(c) == c)
+
+    def probe_qs(Q):
+        q0, q1 = Q(requote=False), Q(qs=True, requote=False)
+        return "".join(c for c in ascii_all if c not in " %" and q0(c) == c and q1(c) != c)
+    rfc_unreserved = string.ascii_letters + string.digits + "-._~"
+    allowed_py = getattr(qp, "ALLOWED", None) or probe_allowed(qp._Quoter)
+    unres_py = getattr(qp, "UNRESERVED", None) or "".join(c for c in rfc_unreserved if c in allowed_py)
+    sub_py = getattr(qp, "SUB_DELIMS_WITHOUT_QS", None) or "".join(c for c in allowed_py if c not in unres_py)
+    allowed_c, qs_c, buf = pyx.get("ALLOWED"), pyx.get("QS"), pyx.get("BUF_SIZE")
+    if allowed_c is None or qs_c is None:
+        try:
+            os.environ.pop("YARL_NO_EXTENSIONS", None)
+            import importlib
+            qc = importlib.import_module("yarl._quoting_c")
+            allowed_c = allowed_c or probe_allowed(qc._Quoter)
+            qs_c = qs_c or probe_qs(qc._Quoter)
+        except Exception:
+            allowed_c = allowed_c or allowed_py
+            qs_c = qs_c or probe_qs(qp._Quoter)
+        finally:
+            os.environ["YARL_NO_EXTENSIONS"] = "1"
+        sys.stderr.write("extract_tables: compiled quoter constants not found under their historical names, read off the behaviour\n")
+    if buf is None:
+        m_ = re.search(r"^DEF\s+\w+\s*=\s*(\d{4,})", open(os.path.join(root, "yarl", "_quoting_c.pyx")).read(), re.M)
+        buf = int(m_.group(1)) if m_ else 8192
+        sys.stderr.write("extract_tables: BUF_SIZE not found under its historical name\n")
+    w(f"def allowedPy : Str := {lean_str(allowed_py)}")
+    w(f"def unreservedPy : Str := {lean_str(unres_py)}")
+    w(f"def subDelimsWithoutQsPy : Str := {lean_str(sub_py)}")
+    w(f"def allowedC : Str := {lean_str(allowed_c)}")
+    w(f"def qsC : Str := {lean_str(qs_c)}")
+    w(f"def bufSize : Nat := {int(buf)}")
     w("")
     for name, safe, prot, qs, requote in quoters:
         w(f"def {name} : QArgs := {{ name := \"{name}\", safe := {lean_str(safe)}, prot := {lean_str(prot)}, qs := {lean_bool(qs)}, requote := {lean_bool(requote)} }}")
@@ -254,23 +438,66 @@ def main():
         w(f"def {name} : UArgs := {{ name := \"{name}\", ignoreS := {lean_str(ign)}, unsafeS := {lean_str(uns)}, qs := {lean_bool(qs)} }}")
     w("def allUnquoters : List UArgs := [" + ", ".join(n for n, *_ in unquoters) + "]")
     w("")
-    hq = human_quote_args(root)
+    from yarl import URL as _URL
+    import yarl as _yarl
+    uni = scheme_universe([url, parse])
+    pr = probe_tables(_URL, uni)
+    notes = []
+
+    def named(mod, name):
+        return getattr(mod, name, None)
+
+    def choose(label, named_val, probed_val, same):
+        """the historical constant when it exists (keeps the generated text stable) — cross-checked against the behaviour;
+        the probed value when the constant was renamed or removed"""
+        if named_val is None:
+            notes.append(f"{label}: constant not found under its historical name, table read off the behaviour")
+            return probed_val
+        if not same(named_val, probed_val):
+            notes.append(f"{label}: the constant and the observed behaviour differ; the behaviour is used")
+            return probed_val
+        return named_val
+
+    try:
+        hq = human_quote_args(root)
+    except Exception:
+        hq = None
+    ph = probe_human_unsafe(_URL)
+    if hq is None or sorted((k, "".join(sorted(v))) for k, v in hq) != sorted((k, "".join(sorted(v))) for k, v in ph.items()):
+        if hq is not None:
+            notes.append("human_quote arguments: source text and behaviour differ; the behaviour is used")
+        hq = [(k, ph[k]) for k in ("user", "password", "path", "fragment", "k", "v")]
     w("def humanUnsafe : List (String × Str) := [" + ", ".join(f"(\"{k}\", {lean_str(v)})" for k, v in hq) + "]")
     w("")
-    w("def defaultPorts : List (Str × Nat) := [" + ", ".join(f"({lean_str(k)}, {v})" for k, v in url.DEFAULT_PORTS.items()) + "]")
-    w(f"def schemeRequiresHost : List Str := {lean_strs(sorted(url.SCHEME_REQUIRES_HOST))}")
-    w(f"def usesRelative : List Str := {lean_strs(sorted(url.USES_RELATIVE))}")
-    w(f"def usesAuthority : List Str := {lean_strs(sorted(parse.USES_AUTHORITY))}")
+    dports = choose("default ports", named(url, "DEFAULT_PORTS"), pr["default_ports"], lambda a, b: dict(a) == dict(b))
+    w("def defaultPorts : List (Str × Nat) := [" + ", ".join(f"({lean_str(k)}, {v})" for k, v in dict(dports).items()) + "]")
+    srh = choose("schemes that require a host", named(url, "SCHEME_REQUIRES_HOST"), pr["requires_host"], lambda a, b: set(a) == set(b))
+    w(f"def schemeRequiresHost : List Str := {lean_strs(sorted(srh))}")
+    urel = choose("uses_relative", named(url, "USES_RELATIVE"), pr["uses_relative"], lambda a, b: set(a) == set(b))
+    w(f"def usesRelative : List Str := {lean_strs(sorted(urel))}")
+    uauth = choose("uses_authority", named(parse, "USES_AUTHORITY"), [""] + pr["uses_authority_nonempty"], lambda a, b: set(a) - {""} == set(b) - {""})
+    w(f"def usesAuthority : List Str := {lean_strs(sorted(uauth))}")
     w(f"def schemeChars : Str := {lean_str(scheme_chars)}")
-    w(f"def stripSet : Str := {lean_str(parse.WHATWG_C0_CONTROL_OR_SPACE)}")
-    w(f"def removeSet : Str := {lean_str(''.join(parse.UNSAFE_URL_BYTES_TO_REMOVE))}")
-    # NOT_REG_NAME probed per ASCII character (the %-rule is modelled by hand)
-    ok = "".join(chr(i) for i in range(128) if chr(i) != "%" and not url.NOT_REG_NAME.search(chr(i)))
+    strip = choose("leading characters stripped", named(parse, "WHATWG_C0_CONTROL_OR_SPACE"), pr["strip"], lambda a, b: set(a) == set(b))
+    w(f"def stripSet : Str := {lean_str(strip)}")
+    rem = named(parse, "UNSAFE_URL_BYTES_TO_REMOVE")
+    rem = choose("characters removed", None if rem is None else "".join(rem), pr["remove"], lambda a, b: set(a) == set(b))
+    w(f"def removeSet : Str := {lean_str(rem)}")
+    # the reg-name character class, probed per ASCII character through build(host=…) (the %-rule is modelled by hand)
+    nrn = named(url, "NOT_REG_NAME")
+    ok_named = None if nrn is None else "".join(chr(i) for i in range(128) if chr(i) != "%" and not nrn.search(chr(i)))
+    ok = choose("reg-name characters", ok_named, pr["regname"], lambda a, b: a == b)
     w(f"def regNameChars : Str := {lean_str(ok)}")
-    pct_ok = bool(not url.NOT_REG_NAME.search("%0a") and url.NOT_REG_NAME.search("%0A") and url.NOT_REG_NAME.search("%a") and url.NOT_REG_NAME.search("%"))
+    pct_named = None if nrn is None else bool(not nrn.search("%0a") and nrn.search("%0A") and nrn.search("%a") and nrn.search("%"))
+    pct_ok = choose("reg-name %-rule", pct_named, pr["pct_lower_hex_only"], lambda a, b: a == b)
     w(f"def regNamePctLowerHexOnly : Bool := {lean_bool(pct_ok)}")
-    w(f"def defaultIdnaSize : Nat := {url._DEFAULT_IDNA_SIZE}")
-    w(f"def defaultEncodeSize : Nat := {url._DEFAULT_ENCODE_SIZE}")
+    ci = _yarl.cache_info()
+    idna_size = named(url, "_DEFAULT_IDNA_SIZE") or ci["idna_encode"].maxsize
+    enc_size = named(url, "_DEFAULT_ENCODE_SIZE") or ci["encode_host"].maxsize
+    w(f"def defaultIdnaSize : Nat := {idna_size}")
+    w(f"def defaultEncodeSize : Nat := {enc_size}")
+    for nt in notes:
+        sys.stderr.write("extract_tables: " + nt + "\n")
     w("")
     sw = slot_writers(root)
     w("def slotWriters : List String := [" + ", ".join(f"\"{x}\"" for x in sw) + "]")
